@@ -562,16 +562,40 @@ package eventbus
 //@ event registerCall := call (*upcastRegistry).register
 
 //@ lockinv upcastRegistry.mu(r) [UpInv.map] {C16,C17} r.upcasters != nil
+//@ lockinv upcastRegistry.mu(r) [UpInv.acyclic] {C16} acyclic(GR(r))
 
+// The upcaster graph: edge a -> b iff some upcaster registered for a has target b.
+//@ def edgeDef(r, a, b) exists i int :: 0 <= i && i < len(r.upcasters[a]) && r.upcasters[a][i].ToType == b
+//@ def visDef(m, k) m[k]
+//@ def GR(r) arrayOf2(edgeDef, string, string, r)
+//@ def VS(m) arrayOf(visDef, string, m)
+
+// Depth-first search with a shared visited set.  True is sound (a path exists).
+// False leaves every node it newly visited closed under edges and never visits
+// the target, which at the top level (empty visited set) means the visited set
+// is a closed set containing the start and not the target: no path (reach.closed).
+// Termination is not verified.
 //@ func (*upcastRegistry).hasCycleDFS
 //@   props C16
-//@   requires r != nil && visited != nil
+//@   requires r != nil && visited != nil && r.upcasters != nil
 //@   requires locked(&r.mu, 1)
+//@   requires !visited[target]
+//@   loop 1 invariant [idx] rangeindex < len(r.upcasters[current]) && -1 <= rangeindex
+//@   loop 1 invariant [C16.dfs.loop.grow] forall k string :: {visited[k]} loopentry(visited[k]) ==> visited[k]
+//@   loop 1 invariant [C16.dfs.loop.target] !visited[target] && visited[current]
+//@   loop 1 invariant [C16.dfs.loop.succ] forall j int :: {r.upcasters[current][j]} 0 <= j && j <= rangeindex ==> visited[r.upcasters[current][j].ToType]
+//@   loop 1 invariant [C16.dfs.loop.closed] forall v string, w string :: {GR(r)[v][w]} visited[v] && !old(visited[v]) && v != current && GR(r)[v][w] ==> visited[w]
+//@   ensures [C16.dfs.sound] result ==> reach(GR(r), current, target)
+//@   ensures [C16.dfs.grow] forall k string :: {visited[k]} old(visited[k]) ==> visited[k]
+//@   ensures [C16.dfs.visited] !result ==> visited[current] && !visited[target]
+//@   ensures [C16.dfs.closed] !result ==> (forall v string, w string :: {GR(r)[v][w]} visited[v] && !old(visited[v]) && GR(r)[v][w] ==> visited[w])
 
 //@ func (*upcastRegistry).wouldCreateCycle
 //@   props C16
-//@   requires r != nil
+//@   requires r != nil && r.upcasters != nil
 //@   requires locked(&r.mu, 1)
+//@   requires fromType != toType
+//@   ensures [C16.cycle.exact] result <==> reach(GR(r), toType, fromType)
 
 //@ func (*upcastRegistry).register
 //@   props C16
@@ -579,6 +603,8 @@ package eventbus
 //@   ensures [C16.reject.basic] fromType == "" || toType == "" || fromType == toType || upcast == nil ==> err != nil && cnt(lockReg) == 0
 //@   ensures [C16.cs.single] {C16,C02} cnt(lockReg) <= 1 && cnt(unlockReg) == cnt(lockReg) && cnt(cycleCheck) == cnt(lockReg)
 //@   at call:(*upcastRegistry).wouldCreateCycle assert [C16.check.locked] held(&r.mu) == 2
+//@   at unlock:upcastRegistry.mu assert [C16.register.exact] (err != nil) <==> acq(reach(GR(r), toType, fromType))
+//@   at unlock:upcastRegistry.mu assert [C16.register.edge] err == nil ==> isAddEdge(acq(GR(r)), GR(r), fromType, toType)
 //@   at unlock:upcastRegistry.mu assert [C16.register.append] err == nil ==>
 //@        len(r.upcasters[fromType]) == len(acq(r.upcasters[fromType])) + 1 &&
 //@        r.upcasters[fromType][len(r.upcasters[fromType]) - 1].FromType == fromType &&
